@@ -100,6 +100,10 @@ def step (line : String) : String :=
     match parseCols cols with
     | some cols => (showStripes cols recs).getD "bad-op"
     | none => "bad-op"
+  | ["read-prefixes", cols, file, tab] =>
+    match parseCols cols with
+    | some cols => classifyPrefixes cols (parseDecomp tab) (unhex file)
+    | none => "bad-op"
   | ["pack", w, g] =>
     match w.toNat? with
     | some w => toHex (pack w (unhex g))
